@@ -2,6 +2,10 @@ package props
 
 import (
 	"fmt"
+	"os"
+	"regexp"
+	"strconv"
+	"strings"
 	"time"
 
 	"github.com/acekingke/yaccgo/verifsim/engb"
@@ -175,6 +179,10 @@ func execC15(ctx *Ctx, in *Input) *Result {
 		}
 		return nil
 	}
+	if os.Getenv("VERIF_C15_ONLY_PARALLEL") != "" {
+		// (debug aid) skip parts (a) and (b), to see what part (c) alone finds
+		goJobs, tsJobs = nil, nil
+	}
 	if pb.Go != nil && len(goJobs) > 0 {
 		t0 := time.Now()
 		rs, err := pb.Go.Run(goJobs)
@@ -206,6 +214,16 @@ func execC15(ctx *Ctx, in *Input) *Result {
 			}
 		}
 	}
+	// ---- (c) truly parallel contexts under the race detector (not exactly replayable: the Go scheduler decides)
+	every := 8
+	if ctx.Thorough() {
+		every = 3
+	}
+	if pb.Go != nil && in.Index%every == 0 {
+		if v := c15Parallel(ctx, res, pb, solo, r.Sub("parallel")); v != nil {
+			return v
+		}
+	}
 	for _, sc := range pb.Specs {
 		if len(sc.Feeds) > 0 {
 			res.Keys = append(res.Keys, hkey(sc.Spec.Short()))
@@ -215,6 +233,132 @@ func execC15(ctx *Ctx, in *Input) *Result {
 		res.Sample = map[string]any{"grammars_in_batch": len(pb.Specs), "first_grammar": pb.Specs[0].Spec.Short(), "histories_per_parser": nHist, "ops_per_history": 2 * histLen, "interleavings_per_o_parser": nInter}
 	}
 	return res
+}
+
+var raceFrameRe = regexp.MustCompile(`/(p[\d_]+)/parser\.go:(\d+)`)
+
+// c15Parallel runs 3-4 contexts of every -o parser in real goroutines in a -race build of the driver.
+func c15Parallel(ctx *Ctx, res *Result, pb *parserBatch, solo map[string][]engbrt.ParseResult, r *rng.R) *Result {
+	type plan struct {
+		sc    *specCtx
+		u     *genUnit
+		feeds [][]int
+	}
+	var jobs []engbrt.Job
+	var plans []plan
+	epiStart := map[string]int{}
+	for si, sc := range pb.Specs {
+		if len(sc.Feeds) == 0 {
+			continue
+		}
+		for _, u := range sc.sortedUnits() {
+			if !u.Variant.Object || u.Variant.Lang != "go" || u.GenErr != "" || u.CompErr != "" {
+				continue
+			}
+			// first line of the epilogue (user code) in the generated file
+			line := 1
+			for _, ln := range strings.Split(string(u.Out), "\n") {
+				if strings.HasPrefix(ln, "var HookNext func(") {
+					break
+				}
+				line++
+			}
+			epiStart[u.Name] = line
+			q := r.Sub(si, u.Variant.String())
+			nc := q.Range(3, 4)
+			var ctxs [][]engbrt.Op
+			var idxs [][]int
+			for c := 0; c < nc; c++ {
+				var ops []engbrt.Op
+				var idx []int
+				for k := 0; k < 4; k++ {
+					fi := q.Intn(len(sc.Feeds))
+					// only inputs that end (accept / syntax error / lexer failure) when parsed alone
+					for t := 0; t < 20; t++ {
+						if o := solo[u.Name][fi].Outcome; o == "accept" || o == "syntax" || o == "lexpanic" {
+							break
+						}
+						fi = q.Intn(len(sc.Feeds))
+					}
+					if o := solo[u.Name][fi].Outcome; o != "accept" && o != "syntax" && o != "lexpanic" {
+						continue
+					}
+					if k > 0 {
+						ops = append(ops, engbrt.Op{Op: "init"})
+					}
+					fd := sc.Feeds[fi].feed()
+					ops = append(ops, engbrt.Op{Op: "parse", Feed: &fd})
+					idx = append(idx, fi)
+				}
+				ctxs = append(ctxs, ops)
+				idxs = append(idxs, idx)
+			}
+			jobs = append(jobs, engbrt.Job{Parser: u.Name, Kind: "parallel", Ctxs: ctxs, Budget: 3000})
+			plans = append(plans, plan{sc, u, idxs})
+		}
+	}
+	if len(jobs) == 0 {
+		return nil
+	}
+	rs, raceLog, err := pb.Go.RunRace(jobs)
+	if err != nil {
+		res.Harness = "engine B (race build): " + err.Error()
+		return res
+	}
+	res.Count("parallel_runs_under_race_detector", len(jobs))
+	// race reports: a report with a frame in GENERATED code (before the epilogue) is a violation
+	for _, block := range strings.Split(raceLog, "==================") {
+		if !strings.Contains(block, "WARNING: DATA RACE") {
+			continue
+		}
+		res.Count("race_reports", 1)
+		inGenerated := ""
+		for _, m := range raceFrameRe.FindAllStringSubmatch(block, -1) {
+			ln, _ := strconv.Atoi(m[2])
+			if start, ok := epiStart[m[1]]; ok && ln < start {
+				inGenerated = m[1]
+			}
+		}
+		if inGenerated == "" {
+			res.Harness = "the race detector reports a race outside generated parser code (harness or epilogue):\n" + firstLines(block, 25)
+			return res
+		}
+		var pl *plan
+		for i := range plans {
+			if plans[i].u.Name == inGenerated {
+				pl = &plans[i]
+			}
+		}
+		sub, gram, vn := 0, "", ""
+		if pl != nil {
+			sub, gram, vn = pl.u.SpecIdx, pl.sc.Spec.Short(), pl.u.Variant.String()
+		}
+		res.Viol = &Violation{Class: "data-race-between-contexts", Key: "data-race-between-contexts", Sub: sub, NotReplayable: true,
+			Msg: fmt.Sprintf("grammar [%s], variant %s: contexts running in parallel goroutines race on memory of the generated parser (race detector report, not exactly replayable):\n%s", gram, vn, firstLines(strings.TrimSpace(block), 22))}
+		return res
+	}
+	// results: as if alone (reductions are not recorded in parallel mode)
+	for i := range rs {
+		pl := plans[i]
+		for c, prs := range rs[i].CtxParses {
+			for k := range prs {
+				if k >= len(pl.feeds[c]) {
+					break
+				}
+				alone := solo[pl.u.Name][pl.feeds[c][k]]
+				got := prs[k]
+				res.Count("parallel_parses_compared", 1)
+				if alone.Outcome != got.Outcome || alone.Fetched != got.Fetched || (alone.Outcome == "accept" && fmt.Sprint(valueOf(alone.Value, pl.u, pl.sc.Spec)) != fmt.Sprint(valueOf(got.Value, pl.u, pl.sc.Spec))) {
+					res.Viol = &Violation{Class: "parallel-context-interference", Key: "parallel-context-interference", Sub: pl.u.SpecIdx, NotReplayable: true,
+						Msg: fmt.Sprintf("grammar [%s], variant %s, %d contexts in parallel goroutines (not exactly replayable): parse #%d of context %d on input [%s] ended %s/%v after %d tokens; alone it ends %s/%v after %d tokens",
+							pl.sc.Spec.Short(), pl.u.Variant, len(rs[i].CtxParses), k+1, c, feedStr(pl.sc.Spec, pl.sc.Feeds[pl.feeds[c][k]].Toks),
+							got.Outcome, valueOf(got.Value, pl.u, pl.sc.Spec), got.Fetched, alone.Outcome, valueOf(alone.Value, pl.u, pl.sc.Spec), alone.Fetched)}
+					return res
+				}
+			}
+		}
+	}
+	return nil
 }
 
 func switches(s []int) int {
@@ -238,7 +382,7 @@ func init() {
 	gen := genParsers("C15", false)
 	Register(&Checker{
 		ID: "C15", Level: "exploration", Engine: "B",
-		Rule: "case = batch of grammars x 5 variants. (a) histories on one parser: seeded sequences of init (or a fresh context) + parse(x), x drawn from accepted, rejected (parse aborted by the parser's own panic) and lexer-fails-at-token-i inputs of different lengths; (b) -o variants: 2-4 contexts, each with its own op list, advanced one yield point (every GetToken call and every reduction) at a time by a seeded scheduler with uniform / burst / switch-after-reduce policies, half of them with the trace on (output attributed per context). Oracle: every parse equals the same input parsed alone right after initialisation (verdict, reductions, tokens requested, value, trace). distinct_nontrivial = distinct interleavings (context-id sequences) + distinct grammars.",
+		Rule: "case = batch of grammars x 5 variants. (a) histories on one parser: seeded sequences of init (or a fresh context) + parse(x), x drawn from accepted, rejected (parse aborted by the parser's own panic) and lexer-fails-at-token-i inputs of different lengths; (b) -o variants: 2-4 contexts, each with its own op list, advanced one yield point (every GetToken call and every reduction) at a time by a seeded scheduler with uniform / burst / switch-after-reduce policies, half of them with the trace on (output attributed per context). (c) in some batches the contexts of every -o parser also run in truly parallel goroutines in a -race build of the driver (results compared with solo runs; a race report with a frame in generated code is a violation; this part is not exactly replayable). Oracle: every parse equals the same input parsed alone right after initialisation (verdict, reductions, tokens requested, value, trace). distinct_nontrivial = distinct interleavings (context-id sequences) + distinct grammars.",
 		NumCases: func(ctx *Ctx) int { return fixedCases(ctx, 32, 800) },
 		Gen: func(ctx *Ctx, i int) *Input {
 			in := gen(ctx, i)
@@ -248,9 +392,9 @@ func init() {
 			return in
 		},
 		Exec:      execC15,
-		Probes:    []string{"histories", "interleavings", "context_switches", "fault_lexer_failed_mid_parse", "fault_parse_aborted_by_syntax_error", "histories_typescript"},
+		Probes:    []string{"parallel_runs_under_race_detector", "histories", "interleavings", "context_switches", "fault_lexer_failed_mid_parse", "fault_parse_aborted_by_syntax_error", "histories_typescript"},
 		FaultKeys: []string{"fault_lexer_failed_mid_parse", "fault_parse_aborted_by_syntax_error"},
-		Assume:    []string{"exactly one context runs at a time (cooperative scheduler owned by the harness): data races between truly parallel contexts are outside this check", "'alone' = first parse after initialisation in the same process"},
+		Assume:    []string{"parts (a) and (b): exactly one context runs at a time (cooperative scheduler owned by the harness), exactly replayable; part (c): the Go scheduler decides, the race detector has no false positives but finds only races that the executed schedule exposes", "'alone' = first parse after initialisation in the same process"},
 		Real:      []string{"yaccgo generator (instrumented copy)", "go build", "generated parsers incl. their ParserInit / MakeParserContext / initialize"},
 		Stubs:     []string{"token source", "context scheduler (seeded, cooperative)"},
 	})
